@@ -571,7 +571,7 @@ class ExcelModel:
             ref = '{c1}{r1}:{c2}{r2}'.format(**rng)
             for c, v in zip(np.ravel(sheet[ref]), np.ravel(r.value)):
                 try:
-                    if v is sh.EMPTY:
+                    if v is sh.EMPTY or (isinstance(v, str) and v == ''):
                         v = None
                     elif isinstance(v, np.generic):
                         v = v.item()
